@@ -151,10 +151,11 @@ def replay_graph(case):
         o = timed(go)
         got = "ok" if "out" in o else o["err"]
         if got == "ContextDepthError":
-            # Recursion.tla!LevelsBounded: the counters, not the interpreter's stack, end the recursion: at most 2*limit+4 partial levels.
+            # Recursion.tla!LevelsBounded: the counters, not the interpreter's stack, end the recursion: at most (limit+2)*(limit//2+2) partial levels
+            # (a copy starts a fresh scope chain; 2*limit+4 only holds for cycles of <= 2 templates).
             # (Where no stack cut-off is involved the model also predicts the exact level; a different but equally bounded accounting
             # of the scope chain is not a violation of the property, so the exact comparison is kept as a note only.)
-            if _lv["m"] > 2 * LIMIT + 4:
+            if _lv["m"] > (LIMIT + 2) * (LIMIT // 2 + 2):
                 got = "ContextDepthError-after-%d-levels" % _lv["m"]
             elif case.get("cut") in ("scope", "copy") and all(e["d"] == 0 for e in case["g"].values()) and _lv["m"] != case["level"]:
                 o["detail"] = "level %d, model %d" % (_lv["m"], case["level"])
